@@ -6,7 +6,7 @@ import itertools
 import infretis.classes.path as ipath
 import infretis.core.tis as tis
 from oracles import wf as O
-from symx import npfacade
+from symx import core, npfacade
 from symx.stubs import SymRng, fdiv, mk_path, tags_of
 
 PROPERTIES = ["C10"]
@@ -166,6 +166,7 @@ def _cw(ctx, L, move):
         w = tis.compute_weight(path, [lam0, lami, cap], move)
         wr = tis.compute_weight(path.reverse(None), [lam0, lami, cap], move)
     except Exception as e:
+        core.reraise_if_proxy_limitation(e)
         ctx.fail("C10:no-exception", repr(e))
         return
     ow = O.ha_weight(orders, lam0, lami, cap, move)
@@ -201,6 +202,7 @@ def _cv(ctx, shape):
     try:
         cv = tis.calc_cv_vector(path, lam, moves, lambda_minus_one=False, cap=cap, minus=False)
     except Exception as e:
+        core.reraise_if_proxy_limitation(e)
         ctx.fail("C10:no-exception", repr(e))
         return
     ocv = O.cv_vector(orders, lam, moves, False, cap, False)
@@ -245,6 +247,7 @@ def _has(ctx, shape):
     try:
         acc, status = tis.high_acc_swap([p1, p2], rng, [a0, b0, c0], [a1, b1, c1], moves)
     except Exception as e:
+        core.reraise_if_proxy_limitation(e)
         ctx.fail("C10:no-exception", repr(e))
         return
     c1o = O.ha_weight(o1, a0, b0, c0, moves[0])
